@@ -102,6 +102,16 @@ Theorem C08_feed_with_snapshot_is_filter : forall (b : builder) (st : store) (nf
   feed (needed_pcaps b (Some s) nf st) newP = filter (keepb s) (feed (needed_pcaps b None nf st) newP).
 Proof. exact feed_with_snapshot_is_filter. Qed.
 
+(* (1b') PacketTimestampMin/Max of a capture are the minimum/maximum over ALL its records (Import.info_of = readPackets);
+   the replay order depends on it: with the first record's time a capture with unsorted records is loaded too late *)
+Theorem C08_capture_info_is_min_max : forall f l p, In p l -> pi_min (info_of f l) <= p_ts p /\ p_ts p <= pi_max (info_of f l).
+Proof. exact capture_info_is_min_max. Qed.
+
+Theorem C08_replay_order_with_first_record_time_refuted :
+  map p_ts (feed [(20, unsorted_capture)] later_packet) = [15; 10; 20] /\
+  map p_ts (feed [(pi_min (info_of 0 unsorted_capture), unsorted_capture)] later_packet) = [10; 15; 20].
+Proof. exact replay_order_with_first_record_time_refuted. Qed.
+
 (* (1c) transparency, modulo the NAMED ASSEMBLER HYPOTHESIS [replay_ok]: for a snapshot recorded on the history F,
    replaying only the kept packets reproduces every stream that contains a packet of the new captures (up to the
    Complete flag).  Then FromPcap with the chosen snapshot = FromPcap with all snapshots dropped: same written
